@@ -538,8 +538,15 @@ def token_codec(ctx, rr):
                     bsep, bint = consts[0], True
         psep = None
         for c in P.own(pt, ast.Call):
-            if isinstance(c.func, ast.Attribute) and c.func.attr == 'split' and c.args:
+            if isinstance(c.func, ast.Attribute) and c.func.attr in ('split', 'rsplit', 'partition', 'rpartition', 'index', 'find', 'rfind') and c.args:
                 psep = fold_sep(c.args[0])
+        if psep is None and pt.call_params:
+            # cut at fixed positions: the builder writes the index with %i (any number of digits), so no fixed position is the separator
+            tk = pt.call_params[0]
+            fixed = [x_ for x_ in ast.walk(pt.node) if isinstance(x_, ast.Subscript) and isinstance(x_.value, ast.Name) and x_.value.id == tk and
+                     all(isinstance(y_, ast.Constant) for y_ in ast.walk(x_.slice) if isinstance(y_, (ast.Constant, ast.Name, ast.Call)))]
+            if fixed and bsep is not None and bint:
+                psep = 'fixed positions'
         has_regex = any(isinstance(n_, ast.Constant) and isinstance(n_.value, str) and ('[' in n_.value or '^' in n_.value)
                         for n_ in list(ast.walk(pt.node)) + [x for st_ in P.modules[H].body if isinstance(st_, ast.Assign) for x in ast.walk(st_)])
         if (bsep is None or psep is None or not bint) and not has_regex:
@@ -734,19 +741,29 @@ def filter_agree(ctx, rr):
 
     def or3(*vs):
         return True if any(v is True for v in vs) else (None if any(v is None for v in vs) else False)
-    for qual in ('Traph.get_webentity_pagelinks_iter', 'Traph.get_webentity_outlinks_iter', 'Traph.get_webentity_inlinks_iter', 'Traph.get_webentity_most_linked_pages_iter'):
+    for qual in ('Traph.get_webentity_pagelinks_iter', 'Traph.get_webentity_outlinks_iter', 'Traph.get_webentity_inlinks_iter', 'Traph.get_webentity_most_linked_pages_iter',
+                 'Traph.get_page_links'):
         u = P.unit(qual)
         lps = [lp_ for lp_ in _link_loops(P, u) if _loop_direction(P, u, lp_) is not None]
         if not lps:
             continue
         outer = _enclosing_for(P, u, lps[0])
-        if outer is None or any(_enclosing_for(P, u, lp) is not outer for lp in lps):
+        if qual == 'Traph.get_page_links':
+            # one page per request: the "page loop body" is the whole function
+            if outer is not None or any(_enclosing_for(P, u, lp) is not None for lp in lps):
+                raise AnalysisError('R-FILTER-AGREE: link loops of %s are nested in another loop' % qual)
+            outer = u.node
+        elif outer is None or any(_enclosing_for(P, u, lp) is not outer for lp in lps):
             raise AnalysisError('R-FILTER-AGREE: link loops of %s are not inside one page loop' % qual)
         dir_of = {id(lp.iter): _loop_direction(P, u, lp) for lp in lps}
-        rows = tables(ctx, u, stmts=outer.body, iters=1, keep=lambda n, c: any(id(c) == k for k in dir_of), hoist=True)
+        rows = tables(ctx, u, stmts=outer.body, iters=1, keep=lambda n, c: any(id(c) == k for k in dir_of), hoist=outer is not u.node)
         bad = []
         for r in rows:
             isp = atom_val(r, '.is_page()')
+            if outer is u.node and (isp is None or any(k.startswith('truthy:') and v is False and k.split(':', 1)[1] not in u.params for k, v in r.val.items())):
+                # the page was not found: nothing to walk
+                if not {dir_of.get(id(e.node)) for e in r.events if e.kind == 'call' and id(e.node) in dir_of}:
+                    continue
             ho, hi = atom_val(r, '.has_outlinks()'), atom_val(r, '.has_inlinks()')
             ob, it, ib = r.val.get('truthy:include_outbound'), r.val.get('truthy:include_internal'), r.val.get('truthy:include_inbound')
             walked = {dir_of.get(id(e.node)) for e in r.events if e.kind == 'call' and id(e.node) in dir_of}
